@@ -72,10 +72,14 @@ def mutants_of(text):
             if isinstance(f, ast.Expr) and isinstance(getattr(f, "value", None), ast.Constant) and isinstance(f.value.value, str):
                 doc_nodes.add(id(f))
     in_func = set()
+    in_default = set()      # constants that are DEFAULT VALUES of parameters (kind "default")
     for n in ast.walk(tree):
         if isinstance(n, (ast.FunctionDef, ast.AsyncFunctionDef)):
             for m in ast.walk(n):
                 in_func.add(id(m))
+            for d in list(n.args.defaults) + [k for k in n.args.kw_defaults if k is not None]:
+                for m in ast.walk(d):
+                    in_default.add(id(m))
 
     def between(left, right, old, new, kind, line):
         a = src.span(left)[1]
@@ -111,10 +115,10 @@ def mutants_of(text):
             a, b = src.span(n)
             v = n.value
             for nv in ([v + 1, v - 1] if isinstance(v, int) else [v * 2, v / 2] if v != 0 else [1.0]):
-                out.append(("const", n.lineno, f"{v!r} -> {nv!r}", src.replace(a, b, repr(nv))))
+                out.append(("default" if id(n) in in_default else "const", n.lineno, f"{v!r} -> {nv!r}", src.replace(a, b, repr(nv))))
         elif isinstance(n, ast.Constant) and isinstance(n.value, bool):
             a, b = src.span(n)
-            out.append(("const", n.lineno, f"{n.value} -> {not n.value}", src.replace(a, b, repr(not n.value))))
+            out.append(("default" if id(n) in in_default else "const", n.lineno, f"{n.value} -> {not n.value}", src.replace(a, b, repr(not n.value))))
         elif isinstance(n, (ast.Assign, ast.AugAssign, ast.Expr)) and id(n) not in doc_nodes:
             if isinstance(n, ast.Expr) and not isinstance(n.value, ast.Call):
                 continue
@@ -204,6 +208,7 @@ def main():
     ap.add_argument("--seed", type=int, default=0)
     ap.add_argument("--files", default="")
     ap.add_argument("--skip-suite", action="store_true")
+    ap.add_argument("--kinds", default="", help="comma list of mutation kinds to keep (cmp,arith,bool,not,minmax,const,default,delete)")
     a = ap.parse_args()
     rng = random.Random(a.seed)
     anch = anchored()
@@ -212,6 +217,8 @@ def main():
     for rel in files:
         text = open(os.path.join("/repo", rel)).read()
         ms = mutants_of(text)
+        if a.kinds:
+            ms = [m for m in ms if m[0] in a.kinds.split(",")]
         rng.shuffle(ms)
         # spread over kinds: round-robin by kind
         by = {}
